@@ -138,7 +138,7 @@ def run_case(case):
     t_header, t_rows = write_csv(path, header, rows, lt, delim)
     assert t_header == header and t_rows == rows
     strip = rng.random() < 0.5
-    limit = rng.choice([None, None, 1, max(1, nrows - 1), max(1, nrows), nrows + 5])
+    limit = rng.choice([None, None, 1, max(1, nrows - 1), max(1, nrows), nrows + 5, 0])
     if fam == 'cast_schema' and bad_rows and rng.random() < 0.5:
         limit = max(1, min(bad_rows))       # the first offending row is the one right AFTER the limit
     name = rng.choice([None, 'custom-name'])
@@ -258,9 +258,9 @@ def run_case(case):
         else:
             exp.append((dict(zip(names, cells)), []))
     if fam == 'cast_schema':
-        if policy == 'raise' and any(i < nrows for i in bad_rows) and len(exp) < (limit or nrows + 1):
+        if policy == 'raise' and any(i < nrows for i in bad_rows) and len(exp) < (nrows + 1 if limit is None else limit):
             # a raise was due before the limit was reached but the run returned normally
-            if any(b < (limit or nrows) for b in bad_rows) and len(exp) < exp_n:
+            if any(b < (nrows if limit is None else limit) for b in bad_rows) and len(exp) < exp_n:
                 add('missing_raise', 'offending row %r before limit but run returned %d rows'
                     % (sorted(bad_rows)[:3], len(grows)))
                 return dict(nontrivial=True, violations=viol, cov=cov, counters=counters)
